@@ -180,6 +180,7 @@ func init() {
 			ruleBlockWriterHash(c, r, "")
 			ruleLookahead(c, r, "")
 			ruleCtorReopen(c, r, "")
+			ruleLoopAdvanceExact(c, r, "")
 			ruleEncoderDictArgs(c, r, "")
 			ruleDictCapEncode(c, r, "")
 			ruleLzmaFilterCodec(c, r, "")
